@@ -212,6 +212,32 @@ theorem mem_of_mergeLines_conflict (s : Bytes) (bm : Option Bytes) (nl : Bytes) 
         · have := ih t h1 hr'
           simp [this]
 
+/-- a conflict region also puts the mid and the end marker line into the rendering -/
+theorem mem_markers_of_conflict (s : Bytes) (bm : Option Bytes) (nl : Bytes) (regions : List Region)
+    (l : List Line) (hm : mergeLines s bm nl regions = .ok l)
+    (r : Region) (hr : r ∈ regions) (hc : r.isConflict = true) :
+    (eq7 ++ nl) ∈ l ∧ (withName gt7 nameB ++ nl) ∈ l := by
+  induction regions generalizing l with
+  | nil => cases hr
+  | cons r0 rs ih =>
+    simp only [mergeLines] at hm
+    cases h0 : renderRegion s bm nl r0 with
+    | error e => simp [h0] at hm
+    | ok h =>
+      cases h1 : mergeLines s bm nl rs with
+      | error e => simp [h0, h1] at hm
+      | ok t =>
+        simp only [h0, h1, Except.ok.injEq] at hm
+        subst hm
+        rcases List.mem_cons.mp hr with rfl | hr'
+        · cases r with
+          | conflict base ta tb =>
+            cases bm <;> cases base <;> simp only [renderRegion, Except.ok.injEq, reduceCtorEq] at h0 <;>
+              (subst h0; simp)
+          | _ => simp [Region.isConflict] at hc
+        · have := ih t h1 hr'
+          simp [this.1, this.2]
+
 theorem any_fix_of_conflict (M : Bytes) (bm : Option Bytes) (nl : Bytes) (regions : List Region)
     (l : List Line) (hm : mergeLines (withName M nameA) bm nl regions = .ok l)
     (r : Region) (hr : r ∈ regions) (hc : r.isConflict = true) :
